@@ -236,6 +236,8 @@ def r3_consistency(w):
         cx = v.pv.peel(v.pv.origins_operand(t['args'][1]))
         cfine = bool(cx)
         for o in cx:
+            if _same_cover(v, o, node_locals):
+                continue          # the Context returned by the same cover search
             if not (o[0] == 'call' and (callee_path(v.pv.call_term(o)) or '').endswith('Context::with_mode')):
                 cfine = False
                 continue
@@ -244,9 +246,9 @@ def r3_consistency(w):
                 cfine = False
         cons = {'fn': b.short, 'converter': cb.short, 'context': sorted(v.describe(o) for o in cx)}
         if cfine:
-            r.ok(cons, 'mode computed by the cover search')
+            r.ok(cons, 'context (or mode) computed by the cover search')
         else:
-            r.bad(cons, '%s|context|%s' % (b.short, cb.short.rsplit('::', 1)[-1]), 'converter context is not Context::default().with_mode(<mode of the cover search>)', b.loc(t['span']))
+            r.bad(cons, '%s|context|%s' % (b.short, cb.short.rsplit('::', 1)[-1]), 'converter context is neither the Context returned by the cover search nor Context::default().with_mode(<mode of the cover search>)', b.loc(t['span']))
     # text: to_string(pretty(nest(doc, indent), max_width))
     txt = v.pv.peel(v.pv.origins_operand(trv['ops'][1]))
     tfine = bool(txt)
@@ -385,16 +387,17 @@ def _mode_of(v):
 
 
 def _cover_fn(w):
+    """the recursive cover search: fn(.., LinkedNode, Mode | Context) -> Option<(Span, Mode | Context)>"""
     bs = []
     for b in w.fn_bodies(w.core):
         if b.def_kind == 'Closure':
             continue
         tys = [b.locals[i]['ty']['s'] for i in range(1, b.arg_count + 1)]
-        if any(t.startswith('typst_syntax::LinkedNode') for t in tys) and any(t.endswith('context::Mode') for t in tys) \
-                and b.locals[0]['ty']['s'].startswith('std::option::Option<(typst_syntax::Span, pretty::context::Mode)>'):
+        if any(t.startswith('typst_syntax::LinkedNode') for t in tys) and any(t.endswith(('context::Mode', 'context::Context')) for t in tys) \
+                and re.match(r'^std::option::Option<\(typst_syntax::Span, pretty::context::(Mode|Context)\)>', b.locals[0]['ty']['s']):
             bs.append(b)
     if len(bs) != 1:
-        raise AnchorMissing('cover search (fn(LinkedNode, Mode) -> Option<(Span, Mode)>): %s' % [b.short for b in bs])
+        raise AnchorMissing('cover search (fn(LinkedNode, Mode|Context) -> Option<(Span, Mode|Context)>): %s' % [b.short for b in bs])
     return bs[0]
 
 
@@ -404,42 +407,93 @@ def _eligible(g):
     return ks
 
 
+def _ctx_triple(v):
+    """(mode, break_suppressed, after_hash) of an abstract Context / Mode value; None = unknown"""
+    from kindflow import Agg, Const
+    if isinstance(v, Agg) and v.adt.endswith('context::Context'):
+        md = v.fields[0] if v.fields else None
+        def b_(i):
+            return v.fields[i].v if len(v.fields) > i and isinstance(v.fields[i], Const) and isinstance(v.fields[i].v, bool) else None
+        return (_mode_of(md), b_(1), b_(2))
+    if _mode_of(v):
+        return (_mode_of(v), None, None)
+    return None
+
+
 def cover_transitions(w):
-    """{(K, m_in, prev_is_hash): set(modes handed to the recursive call for the child after prev)} by abstract evaluation of the cover search"""
+    """{(K, (mode, supp, after_hash)_in, prev_is_hash): set((mode, supp, after_hash) handed to the recursive call for the child after prev)} by abstract
+    evaluation of the cover search.  When the search tracks a Mode only, supp / after_hash are None (not tracked)."""
     import grammar
     import kindflow as kf
     import sites as sm
     from kindflow import Agg, Node
     b = _cover_fn(w)
     node_p = [i for i in range(1, b.arg_count + 1) if b.locals[i]['ty']['s'].startswith('typst_syntax::LinkedNode')][0]
-    mode_p = [i for i in range(1, b.arg_count + 1) if b.locals[i]['ty']['s'].endswith('context::Mode')][0]
+    ctx_p = [i for i in range(1, b.arg_count + 1) if b.locals[i]['ty']['s'].endswith(('context::Mode', 'context::Context'))][0]
+    full = b.locals[ctx_p]['ty']['s'].endswith('context::Context')
 
     def hook(ip, m, f, t, args):
         if resolved_id(t) == b.id:
             vals = [ip.load(a) if isinstance(a, kf.Ref) else a for a in args]
-            md = None
+            tr = None
             for v in vals:
-                if _mode_of(v):
-                    md = _mode_of(v)
-            m.events.append(('rec', md))
+                if _ctx_triple(v):
+                    tr = _ctx_triple(v)
+            m.events.append(('rec', tr))
             return Agg('core::option::Option', 'None', [])
         return None
     out = {}
+    flags = [(s_, a_) for s_ in (False, True) for a_ in (False, True)] if full else [(None, None)]
     for K in sorted(grammar.CHILDREN):
-        kids = grammar.CHILDREN[K]
         for m_in in MODES:
-            for prev in ('Hash', 'Space'):
-                res = sm.evaluate_sequence(w, b, node_p, K, [Node('child', prev), Node('child', 'FuncCall')], no_inline=lambda tb: False,
-                                           extra={mode_p: _mode_val(m_in)}, hooks={'rec': hook})
-                modes = set()
-                for item in res or []:
-                    steps = item[1]
-                    if len(steps) >= 2:
-                        for e in steps[1]:
-                            if e[0] == 'rec':
-                                modes.add(e[1])
-                out[(K, m_in, prev == 'Hash')] = modes if res else None
-    return b, out
+            for (s_in, a_in) in flags:
+                for prev in ('Hash', 'Space'):
+                    val = sm.context(m_in, s_in, a_in) if full else _mode_val(m_in)
+                    res = sm.evaluate_sequence(w, b, node_p, K, [Node('child', prev), Node('child', 'FuncCall')], no_inline=lambda tb: False,
+                                               extra={ctx_p: val}, hooks={'rec': hook})
+                    got = set()
+                    for item in res or []:
+                        steps = item[1]
+                        if len(steps) >= 2:
+                            for e in steps[1]:
+                                if e[0] == 'rec' and e[1] is not None:
+                                    got.add(e[1])
+                    out[(K, (m_in, s_in, a_in), prev == 'Hash')] = got if res else None
+    return b, out, full
+
+
+def entry_context_shape(w):
+    """how the range entry builds the Context it converts the covering node with: 'mode-only' = Context::default().with_mode(<mode of the cover
+    search>) (break_suppressed and after_hash are constantly false), 'context' = the Context the cover search returned"""
+    b = _entry(w)
+    v = BodyView(w, b)
+    shapes = set()
+    for bi, t in b.calls():
+        rid = resolved_id(t)
+        cb = w.bodies.get(rid)
+        if cb is None or cb.crate is not w.core or not cb.short.startswith('pretty::') or cb.short.startswith('pretty::context::') or cb.def_kind == 'Closure':
+            continue
+        if not any(cb.locals[i]['ty']['s'].endswith('context::Context') for i in range(1, cb.arg_count + 1)):
+            continue
+        for i in range(1, cb.arg_count + 1):
+            if cb.locals[i]['ty']['s'].endswith('context::Context'):
+                for o in v.pv.peel(v.pv.origins_operand(t['args'][i - 1])):
+                    if o[0] == 'call':
+                        ct = v.pv.call_term(o)
+                        cp = resolved_path(ct) or callee_path(ct) or ''
+                        if cp.endswith('::with_mode'):
+                            base = v.pv.peel(v.pv.origins_operand(ct['args'][0]))
+                            if base and all(x[0] == 'call' and re.search(r'Default>?::default$|::default$', resolved_path(v.pv.call_term(x)) or callee_path(v.pv.call_term(x)) or '') for x in base):
+                                shapes.add('mode-only')
+                            else:
+                                shapes.add('unknown:with_mode on %s' % sorted(v.describe(x) for x in base))
+                        elif 'get_node_cover_range' in cp or cp.endswith('::filter'):
+                            shapes.add('context')
+                        else:
+                            shapes.add('unknown:' + cp[-60:])
+                    else:
+                        shapes.add('unknown:' + v.describe(o)[:60])
+    return shapes
 
 
 def _ctx_changing(w):
@@ -450,7 +504,7 @@ def _ctx_changing(w):
         hit = False
         for bi, t in b.calls():
             p = resolved_path(t) or callee_path(t) or ''
-            if re.search(r'context::\{impl#\d+\}::with_mode(_if)?$|Context::with_mode(_if)?$', p):
+            if re.search(r'context::\{impl#\d+\}::(with_\w+|suppress_breaks)$|Context::(with_\w+|suppress_breaks)$', p):
                 hit = True
         for blk in b.blocks:
             for s in blk['stmts']:
@@ -494,17 +548,18 @@ def _pt_task(task):
         x = o.items[-1] if o.items else None
         labs = _mode_if_labels(o.assumed)
         cond = None if not labs else (labs[-1] if len(set(labs)) == 1 else 'mixed')
-        for (fn, node, mode, supp) in o.converts or []:
+        for (fn, node, mode, supp, extra) in getattr(o, 'converts_x', None) or []:
+            val = (mode, fn, supp, extra[0] if extra else None)
             if isinstance(node, Node) and node.tag.startswith('child') and x is not None and node.kind == x.kind:
-                res.setdefault((K, m_in, cond, node.kind), set()).add((mode, fn))
+                res.setdefault((K, m_in, cond, node.kind), set()).add(val)
             elif isinstance(node, Node) and node.tag == 'parent':
-                res.setdefault((K, m_in, cond, '<self>'), set()).add((mode, fn))
+                res.setdefault((K, m_in, cond, '<self>'), set()).add(val)
             elif not isinstance(node, Node):
-                res.setdefault((K, m_in, cond, '?'), set()).add((mode, fn))
+                res.setdefault((K, m_in, cond, '?'), set()).add(val)
     for wh in wholes or []:
         labs = _mode_if_labels(wh.assumed)
         cond = None if not labs else (labs[-1] if len(set(labs)) == 1 else 'mixed')
-        for (fn, node, mode, supp) in wh.converts or []:
+        for (fn, node, mode, supp, extra) in getattr(wh, 'converts_x', None) or []:
             if isinstance(node, Node) and node.tag == 'parent':
                 k = '<self>'
             elif isinstance(node, Node) and node.kind and not node.tag.startswith('child'):
@@ -513,7 +568,7 @@ def _pt_task(task):
                 continue        # loop items on complete paths are judged per iteration above
             else:
                 k = '?'
-            res.setdefault((K, m_in, cond, k), set()).add((mode, fn))
+            res.setdefault((K, m_in, cond, k), set()).add((mode, fn, supp, extra[0] if extra else None))
     return task, res
 
 
@@ -562,7 +617,7 @@ def _pt_seq(task):
             continue
         for e in steps[1]:
             if e[0] == 'convert' and isinstance(e[2], Node) and e[2].tag == 'child' and e[2].kind == x0:
-                modes.add(e[3])
+                modes.add((e[3], e[4], (e[5][0] if len(e) > 5 and e[5] else None)))
     return task, modes
 
 
@@ -619,10 +674,12 @@ def printer_transitions(w):
             continue
         evaluated.append(b.short)
         uses_if = any(re.search(r'with_mode_if$', resolved_path(t) or callee_path(t) or '') for x in rs for bi, t in w.bodies[x].calls())
+        uses_ah = any(re.search(r'with_after_hash$', resolved_path(t) or callee_path(t) or '') for x in rs if x == b.id or w.bodies[x].def_kind == 'Closure' or not kf.default_converter_pred(w.bodies[x])
+                      for bi, t in w.bodies[x].calls()) and not b.short.endswith(('::convert_expr', '::convert_expr_impl'))
         for K in kinds:
             for m_in in MODES:
                 tasks.append((b.id, i, K, m_in))
-            if uses_if and 'Hash' in grammar.CHILDREN.get(K, []):
+            if (uses_if or uses_ah) and 'Hash' in grammar.CHILDREN.get(K, []):
                 kids = [k for k in grammar.CHILDREN.get(K, []) if k in elig]
                 x0 = 'FuncCall' if 'FuncCall' in kids else (kids[0] if kids else None)
                 if x0:
@@ -647,7 +704,7 @@ def printer_transitions(w):
                 failed.append((fn,) + task[2:])
                 continue
             for (K, m_in, cond, X), v in res.items():
-                passkids.setdefault((fn, K, X), set()).update(c for (m, c) in v if m is not None)
+                passkids.setdefault((fn, K, X), set()).update(x[1] for x in v if x[0] is not None)
     _PT.clear()
     kinds_of_fn = {b.short: kinds for b, i, kinds in _all_converters(w, se)}
     result = (out, evaluated, passthrough, failed, seqs, passkids, kinds_of_fn)
@@ -660,11 +717,23 @@ def printer_transitions(w):
 
 
 def r5_mode_agreement(w):
-    r = RuleResult('C13.R5', 'the cover search hands the range converter the mode the whole-document printer uses for the same node (simulation over kind x converter x printer mode x cover mode)', floor=60)
+    r = RuleResult('C13.R5', 'the cover search hands the range converter the context (mode, break suppression, after-# flag) the whole-document printer uses for the same node '
+                   '(simulation over kind x converter x printer context x cover context)', floor=60)
     import grammar
     import sites as sm
     g = grammar.load()
-    cb, cov = cover_transitions(w)
+    cb, cov, cover_full = cover_transitions(w)
+    shape = entry_context_shape(w)
+    if shape == {'mode-only'}:
+        passes_ctx = False
+    elif shape == {'context'} and cover_full:
+        passes_ctx = True
+    else:
+        r.bad({'range_entry_context': sorted(shape), 'cover_search_tracks_context': cover_full}, 'mode|entry-shape',
+              'how the range entry builds the Context for the covering node was not recognised (%s)' % sorted(shape), _entry(w).loc())
+        return r
+    r.ok({'range_entry_context': 'the Context returned by the cover search' if passes_ctx else 'Context::default().with_mode(mode of the cover search): break_suppressed = after_hash = false'},
+         'entry shape recognised')
     pr, evaluated, passthrough, failed, seqs, passkids, kinds_of_fn = printer_transitions(w)
     for f in failed:
         r.bad({'printer_site': f[0], 'parent': f[1], 'mode': f[2]}, 'mode|not-evaluated|%s|%s' % (last(f[0]), f[1]), 'the printer\'s mode transitions of %s could not be evaluated within bounds' % f[0])
@@ -674,9 +743,12 @@ def r5_mode_agreement(w):
     for (fn, K, prev, x0), modes in sorted(seqs.items()):
         want = set()
         for cond in ((True, None) if prev == 'Hash' else (False, None)):
-            want |= {m for (m, c) in pr.get((fn, K, 'Math', cond, x0), set())}
-        cons = {'printer_site': last(fn), 'parent': K, 'previous_sibling': prev, 'child': x0, 'modes': sorted(map(str, modes or []))}
-        if modes is not None and modes and modes <= want:
+            want |= {x[0] for x in pr.get((fn, K, 'Math', cond, x0), set())}
+        seq_modes = {x[0] for x in (modes or [])}
+        cons = {'printer_site': last(fn), 'parent': K, 'previous_sibling': prev, 'child': x0, 'modes': sorted(map(str, seq_modes))}
+        if not want or not seq_modes:
+            continue          # no conditional mode change at this site (e.g. the markup loop): nothing to tie to the `#`
+        if modes is not None and seq_modes and seq_modes <= want:
             r.ok(cons, 'with_mode_if condition == previous sibling is Hash')
         else:
             link_ok = False
@@ -687,20 +759,26 @@ def r5_mode_agreement(w):
     math_only = set(grammar.MATH_EXPR) - set(grammar.CODE_EXPR)
     math_ok = set(grammar.MATH_EXPR) | {'Args', 'Named', 'Spread'}
 
-    def transitions(fn, K, m_p):
-        """[(cond, Xkey, mode, callee)] of converter fn on a K node entered with mode m_p"""
+    def transitions(fn, K, P):
+        """[(cond, Xkey, P', callee, supp_by)] of converter fn on a K node entered with printer context P = (mode, supp, after_hash, supp_origin)"""
+        m_p, s_p, a_p, o_p = P
         out = []
         if fn in ev:
             for cond in (None, True, False, 'mixed'):
                 for xk in list(grammar.CHILDREN.get(K, [])) + [x for fk in sm.FLATTEN.get(K, []) for x in grammar.CHILDREN.get(fk, [])] + ['<self>', '?']:
-                    for (mode, callee) in pr.get((fn, K, m_p, cond, xk), ()):
-                        if mode is not None:
-                            out.append((cond, xk, mode, callee))
+                    for (mode, callee, supp, ah) in pr.get((fn, K, m_p, cond, xk), ()):
+                        if mode is None:
+                            continue
+                        s2 = s_p if supp is None else supp
+                        o2 = o_p
+                        if supp is True and not s_p:
+                            o2 = 'math' if K in ('Math',) or fn.endswith('::convert_math') else 'mixed-line'
+                        out.append((cond, xk, (mode, s2, a_p if ah is None else ah, o2), callee))
         else:
             for (f2, K2, xk), callees in passkids.items():
                 if f2 == fn and K2 == K:
                     for callee in callees:
-                        out.append((None, xk, m_p, callee))
+                        out.append((None, xk, P, callee))
         return out
 
     def feasible(K, m_p, hash_prev, X, has_hash):
@@ -718,43 +796,62 @@ def r5_mode_agreement(w):
             return False          # in math, anything but math expressions (and the argument structure of math calls) occurs only directly after `#`
         return not hash_prev
 
+    def cover_next(K, C, hash_prev):
+        """contexts the cover search hands to a child of K"""
+        if passes_ctx:
+            return cov.get((K, C, hash_prev))
+        v = cov.get((K, (C[0], None, None) if not cover_full else C, hash_prev))
+        if v is None:
+            return None
+        # the entry builds Context::default().with_mode(mode): both flags are constantly false
+        return {(x[0], False, False) for x in v}
+
     entry = [b for b in w.fn_bodies(w.core) if b.short.endswith('::convert_markup') and b.def_kind != 'Closure']
     if len(entry) != 1:
         raise AnchorMissing('convert_markup')
-    start = ('Markup', entry[0].short, 'Markup', 'Markup')
+    start = ('Markup', entry[0].short, ('Markup', False, False, None), ('Markup', False, False))
     seen, work = {start}, [start]
     pred = {start: None}
     reported = {}
     unknown_fns = set()
     n_edges = 0
 
-    def compare(K, X, hash_prev, c, p, incoming, via):
+    def compare(K, X, hash_prev, C, P, via):
+        """is the context C of the cover search as good as the printer's P for converting node X?"""
         nonlocal n_edges
         n_edges += 1
-        if c == p or (c, p) in SAFE:
+        (mc, sc, ac), (mp, sp, ap, op) = C, P
+        what = None
+        if not (mc == mp or (mc, mp) in SAFE):
+            what = ('mode', mc, mp)
+        elif sp and not sc and op == 'math':
+            # below Math the printer never breaks a line on its own; without the flag the converter may (a dot chain after `#` is broken without parentheses)
+            what = ('break_suppressed', sc, sp)
+        elif ap and not ac:
+            what = ('after_hash', ac, ap)
+        if what is None:
             return True
-        key = 'mode|%s|%s|cover=%s|printer=%s' % (K, 'after-hash' if hash_prev else 'plain', c, p)
-        reported.setdefault(key, {'parent': K, 'after_hash': hash_prev, 'cover_mode': c, 'printer_mode': p, 'incoming': incoming, 'printer_site': last(via), 'children': []})
+        key = 'mode|%s|%s|cover=%s|printer=%s' % (K, 'after-hash' if hash_prev else 'plain', what[1], what[2]) if what[0] == 'mode' else \
+              'ctx|%s|%s|%s|cover=%s|printer=%s' % (what[0], K, 'after-hash' if hash_prev else 'plain', what[1], what[2])
+        reported.setdefault(key, {'parent': K, 'after_hash': hash_prev, 'field': what[0], 'cover': what[1], 'printer': what[2], 'printer_site': last(via), 'children': []})
         reported[key]['children'].append(X)
         return False
 
     while work:
-        K, fn, m_p, m_c = work.pop()
+        K, fn, P, C = work.pop()
         if fn not in kinds_of_fn:
             unknown_fns.add(fn)
             continue
         kids = list(grammar.CHILDREN.get(K, []))
         flat = {x: fk for fk in sm.FLATTEN.get(K, []) for x in grammar.CHILDREN.get(fk, [])}
         has_hash = 'Hash' in kids
-        for (cond, xk, p, callee) in transitions(fn, K, m_p):
+        for (cond, xk, P2, callee) in transitions(fn, K, P):
             if xk == '<self>':
-                # the same node handed on (dispatcher, wrapper): the cover search entered with m_c, the printer continues with p
-                if K in elig and not compare(K, K, False, m_c, p, (m_p, m_c), fn):
-                    continue
-                nxt = (K, callee, p, m_c)
+                # the same node handed on (dispatcher, wrapper): the cover search entered with C, the printer continues with P2
+                nxt = (K, callee, P2, C)
                 if nxt not in seen:
                     seen.add(nxt)
-                    pred[nxt] = ((K, fn, m_p, m_c), 'self', cond)
+                    pred[nxt] = ((K, fn, P, C), 'self', cond)
                     work.append(nxt)
                 continue
             if xk == '?':
@@ -769,55 +866,64 @@ def r5_mode_agreement(w):
                 if not has_hash:
                     hp &= {False}
                 for hash_prev in sorted(hp):
-                    if not feasible(K, m_p, hash_prev, X, has_hash):
+                    if not feasible(K, P[0], hash_prev, X, has_hash):
                         continue
                     if X == K and xk == '?':
-                        cs = {m_c}
+                        cs = {C}
                     elif X in flat and X not in kids:
                         cs = set()
-                        for c1 in (cov.get((K, m_c, False)) or []):
-                            cs |= (cov.get((flat[X], c1, hash_prev)) or set())
+                        for c1 in (cover_next(K, C, False) or []):
+                            cs |= (cover_next(flat[X], c1, hash_prev) or set())
                     else:
-                        cs = cov.get((K, m_c, hash_prev))
+                        cs = cover_next(K, C, hash_prev)
                     if not cs:
                         key = 'mode|cover-not-evaluated|%s' % K
                         if key not in reported:
                             reported[key] = True
-                            r.bad({'parent': K, 'mode': m_c}, key, 'the cover search could not be evaluated for a %s node' % K, cb.loc())
+                            r.bad({'parent': K, 'context': list(C)}, key, 'the cover search could not be evaluated for a %s node' % K, cb.loc())
                         continue
+                    P3 = P2
+                    sq = [v_ for (f_, k_, pv_, x0_), v_ in seqs.items() if f_ == fn and k_ == K and pv_ == ('Hash' if hash_prev else 'Space')]
+                    if sq and sq[0]:
+                        ahs = {x[2] for x in sq[0]}
+                        if len(ahs) == 1 and None not in ahs:
+                            P3 = (P2[0], P2[1], next(iter(ahs)), P2[3])      # the flag set for the child after `#` / after anything else at this site
                     for c in cs:
-                        if X in elig and not compare(K, X, hash_prev, c, p, (m_p, m_c), fn):
+                        if X in elig and not compare(K, X, hash_prev, c, P3, fn):
                             continue
-                        nxt = (X, callee, p, c)
+                        nxt = (X, callee, P3, c)
                         if X in inner and nxt not in seen:
                             seen.add(nxt)
-                            pred[nxt] = ((K, fn, m_p, m_c), xk, cond, hash_prev)
+                            pred[nxt] = ((K, fn, P, C), xk, cond, hash_prev)
                             work.append(nxt)
     import os
     if os.environ.get('C13_TRACE'):
-        for st in sorted(seen):
-            if st[2] != st[3] and (st[3], st[2]) not in SAFE:
-                chain = []
-                x = st
-                while x is not None and len(chain) < 12:
-                    chain.append((x[0], last(x[1]), x[2], x[3], pred[x][1:] if pred.get(x) else None))
-                    x = pred[x][0] if pred.get(x) else None
-                print('TRACE', chain)
-                break
+        for key, d in reported.items():
+            print('TRACE', key, d if d is True else {k: v for k, v in d.items() if k != 'children'}, '' if d is True else sorted(set(d['children']))[:4])
     for key, d in sorted(reported.items()):
         if d is True:
             continue
         ch = sorted(set(d['children']))
-        r.bad({k: v for k, v in d.items() if k != 'children'} | {'children': len(ch)}, key,
-              'a %s child of a %s node%s is converted in %s mode by the whole-document printer (%s) but the cover search of range formatting hands it to the converter in %s mode '
-              '(e.g. child kinds %s): the returned text is laid out for the wrong syntactic context (code arguments printed in math style, or a multi-line method chain without '
-              'the parentheses markup needs), so splicing it back changes the tree or no longer parses'
-              % ('/'.join(ch[:3]), d['parent'], ' that follows a `#`' if d['after_hash'] else '', d['printer_mode'], d['printer_site'], d['cover_mode'], ch[:4]), cb.loc())
-    for (K, fn, m_p, m_c) in sorted(seen):
-        r.ok({'kind': K, 'converter': last(fn), 'printer_mode': m_p, 'cover_mode': m_c}, 'reachable state: equal or harmlessly weaker (%s)' % (SAFE.get((m_c, m_p), 'equal')))
+        cons = {k: v for k, v in d.items() if k != 'children'} | {'children': len(ch)}
+        if d['field'] == 'mode':
+            msg = ('a %s child of a %s node%s is converted in %s mode by the whole-document printer (%s) but the cover search of range formatting hands it to the converter in %s mode '
+                   '(e.g. child kinds %s): the returned text is laid out for the wrong syntactic context (code arguments printed in math style, or a multi-line method chain without '
+                   'the parentheses markup needs), so splicing it back changes the tree or no longer parses'
+                   % ('/'.join(ch[:3]), d['parent'], ' that follows a `#`' if d['after_hash'] else '', d['printer'], d['printer_site'], d['cover'], ch[:4]))
+        elif d['field'] == 'break_suppressed':
+            msg = ('below Math the whole-document printer converts a %s child of a %s node%s with line breaks suppressed (%s) but range formatting converts it with break_suppressed=%s '
+                   '(e.g. child kinds %s): a dot chain after `#` in math is then broken over several lines without parentheses, and the line break ends the embedded expression'
+                   % ('/'.join(ch[:3]), d['parent'], ' that follows a `#`' if d['after_hash'] else '', d['printer_site'], d['cover'], ch[:4]))
+        else:
+            msg = ('the whole-document printer converts a %s child of a %s node that follows a `#` with after_hash set (%s) but range formatting converts it with after_hash=%s '
+                   '(e.g. child kinds %s): the parentheses of `#(1)pt` are removed and the literal fuses with the text after it'
+                   % ('/'.join(ch[:3]), d['parent'], d['printer_site'], d['cover'], ch[:4]))
+        r.bad(cons, key, msg, cb.loc())
+    for (K, fn, P, C) in sorted(seen, key=str):
+        r.ok({'kind': K, 'converter': last(fn), 'printer_context': list(P[:3]), 'cover_context': list(C)}, 'reachable state: equal or harmlessly weaker')
     if unknown_fns:
         r.note('converters whose parent kinds are unknown (their children are not followed): %s' % sorted(last(x) for x in unknown_fns))
-    r.note('%d reachable (kind, converter, printer mode, cover mode) states, %d mode pairs compared; %d converters evaluated for mode changes, %d pass their context on unchanged'
+    r.note('%d reachable (kind, converter, printer context, cover context) states, %d context pairs compared; %d converters evaluated for context changes, %d pass their context on unchanged'
            % (len(seen), n_edges, len(evaluated), len(passthrough)))
     return r
 
